@@ -1,6 +1,6 @@
 """C09 (crash consistency) and C10 (I/O faults are never silent): the traced
 program harness/crash_driver.c (real libovni, small staging buffer) is run under
-strace; for every file-system syscall of the runtime phase the process is killed
+a ptrace tracer (harness/killat.c); for every file-system syscall of the runtime phase the process is killed
 before the call executes (C09) or the call fails with an errno (C10); the trace
 directory left behind is then examined and given to the real ovniemu."""
 import os, re, json, shutil, subprocess, itertools
@@ -51,11 +51,12 @@ def runtime_phase(log):
 
 
 def flushed_bytes(log, tracked_prefix):
-    """bytes passed to completed write()s on each runtime stream (opened O_WRONLY|O_CREAT without O_TRUNC)"""
+    """bytes passed to completed write()s on each runtime stream (the stream.obs opened for writing below
+    tracked_prefix: the trace directory in direct mode, OVNI_TMPDIR otherwise)"""
     fds = {}
     out = {}
     for (pid, sc, args, ret, tail) in log:
-        if sc == "openat" and "stream.obs" in args and "O_WRONLY|O_CREAT" in args and "O_TRUNC" not in args and ret not in ("?", "-1"):
+        if sc == "openat" and "stream.obs" in args and "O_WRONLY|O_CREAT" in args and ret not in ("?", "-1"):
             m = re.search(r'thread\.(\d+)/stream\.obs', args)
             if m and tracked_prefix in args:
                 fds[int(ret)] = int(m.group(1))
@@ -75,6 +76,7 @@ class Runner:
         self.exe = build.harness("plain", "crash_driver", ["crash_driver.c"],
                                  extra=['-DVERIF_OVNI_C="%s"' % os.path.join(REPO, "src/rt/ovni.c"), "-DVERIF_BUFSZ=4096"],
                                  link_extra=["-ldl"])
+        self.killat = build.harness("plain", "killat", ["killat.c"], libs=False, extra=["-Wno-format-truncation"])
         self.emu = build.tool("plain", "ovniemu")
         self.base = scratch.sub("runs")
 
@@ -94,10 +96,14 @@ class Runner:
             env["OVNI_TMPDIR"] = os.path.join(d, "tmp")
             env["VERIF_READDIR"] = mode[1]
         log = os.path.join(d, "log")
-        cmd = ["strace", "-f", "-o", log, "-s", "16", "-e", "trace=" + ",".join(SYSCALLS)]
-        if inject:
-            cmd += ["-e", "inject=" + inject]
-        cmd += [self.exe] + SCEN[scen].split()
+        # harness/killat.c: ptrace tracer; inject is None, "kill:N" or "err:N:ERRNO" (N = global index in the runtime phase)
+        cmd = [self.killat, log, inject or "-"]
+        if scen.startswith("r:"):
+            # not from the initial state: the directories hold the complete trace of an earlier run (another program, same pid and tids)
+            p0 = subprocess.run([self.exe] + SCEN["h2"].split(), env=env, stdout=subprocess.PIPE, stderr=subprocess.PIPE, timeout=60)
+            if p0.returncode != 0:
+                raise InfraError("earlier run failed: %s" % p0.stderr.decode("latin1")[-300:])
+        cmd += [self.exe] + SCEN[scen.split(":")[-1]].split()
         r = subprocess.run(cmd, env=env, stdout=subprocess.PIPE, stderr=subprocess.PIPE, timeout=60)
         return {"dir": d, "rc": r.returncode, "stderr": r.stderr.decode("latin1"), "log": parse_log(log), "final": env["OVNI_TRACEDIR"],
                 "tmp": env.get("OVNI_TMPDIR")}
@@ -133,36 +139,31 @@ def plan(runner, scen, mode, tag):
         raise InfraError("fault-free run of %s/%s failed: %s" % (scen, mode, r["stderr"][-300:]))
     start = runtime_phase(r["log"])
     if start is None:
-        raise InfraError("sentinel not found in the strace log")
+        raise InfraError("sentinel not found in the syscall log")
     full = {}
     for tid, dp in thread_dirs(r["final"]).items():
         full[tid] = {"obs": read(os.path.join(dp, "stream.obs")), "json": read(os.path.join(dp, "stream.json"))}
     rc, msg = runner.emulate(r["final"])
     if rc != 0:
         raise InfraError("fault-free trace of %s/%s rejected by ovniemu: %s" % (scen, mode, msg))
-    # per-thread occurrence numbers (strace injects per thread)
-    pre = {}
-    for e in r["log"][:start]:
-        pre[(e[0], e[1])] = pre.get((e[0], e[1]), 0) + 1
+    # N = position among all logged syscalls of the runtime phase, whatever the thread (the tracer counts the same way)
     seq = []
-    cnt = dict(pre)
     pids = []
+    idx = 0
     for e in r["log"][start:]:
-        if e[1] in ("+++",) or ("VERIF-END" in e[2]):
+        if e[1] in ("+++",):
+            continue
+        idx += 1
+        if "VERIF-END" in e[2]:
             continue
         if e[0] not in pids:
             pids.append(e[0])
-        cnt[(e[0], e[1])] = cnt.get((e[0], e[1]), 0) + 1
-        seq.append({"thread": pids.index(e[0]), "sc": e[1], "n": cnt[(e[0], e[1])], "args": e[2][:80], "ret": e[3], "tail": e[4]})
+        seq.append({"thread": pids.index(e[0]), "sc": e[1], "n": idx, "args": e[2][:80], "ret": e[3], "tail": e[4]})
     return r, full, seq
 
 
 def shadowed(seq, i):
-    """strace counts occurrences per thread: (sc, n) fires in whichever thread reaches it first"""
-    t = seq[i]
-    for j in range(i):
-        if seq[j]["sc"] == t["sc"] and seq[j]["n"] == t["n"] and seq[j]["thread"] != t["thread"]:
-            return True
+    """kept for the evidence field: the ptrace tracer targets every point exactly (strace's per-thread counters did not)"""
     return False
 
 
@@ -172,16 +173,22 @@ def run_c09(prop, tier):
     try:
         build = Build()
         runner = Runner(build, scratch)
-        scens = ["h1", "h3", "h4a"] if tier == "quick" else list(SCEN)
+        scens = ["h1", "h3", "h4a", "r:h3"] if tier == "quick" else list(SCEN) + ["r:h3", "r:h1", "r:h5"]
         modes = [("direct", None), ("tmpdir", "json-first"), ("tmpdir", "obs-first")]
         jobs = []
         refs = {}
+        olds = {}
         nshadow = 0
         for sc in scens:
             for mode in modes:
                 tag = "%s-%s-%s" % (sc, mode[0], mode[1])
                 r, full, seq = plan(runner, sc, mode, tag)
                 refs[(sc, mode)] = full
+                if sc.startswith("r:"):
+                    # what the earlier run alone leaves behind (a thread directory still in that state was not touched yet)
+                    r0 = runner.run(tag + "-old", "h2", mode)
+                    olds[(sc, mode)] = {tid: (read(os.path.join(dp, "stream.json")), read(os.path.join(dp, "stream.obs")))
+                                        for tid, dp in thread_dirs(r0["final"]).items()}
                 last_state = None
                 for i, s in enumerate(seq):
                     mut = s["sc"] in MUTATING and not ("EEXIST" in s["tail"]) and not (s["sc"] == "openat" and "O_RDONLY" in s["args"] and "O_CREAT" not in s["args"])
@@ -198,13 +205,13 @@ def run_c09(prop, tier):
         def one(j):
             sc, mode, i, s = j
             tag = "k%d" % os.getpid()
-            r = runner.run(tag, sc, mode, inject="%s:signal=SIGKILL:when=%d" % (s["sc"], s["n"]))
+            r = runner.run(tag, sc, mode, inject="kill:%d" % s["n"])
             full = refs[(sc, mode)]
             prefix = r["tmp"] if mode[0] == "tmpdir" else r["final"]
             fl = flushed_bytes(r["log"], prefix)
             killed = any(e[1] == "+++" and "killed by SIGKILL" in e[2] for e in r["log"])
             if not killed:
-                return ("nokill", "the injection %s:when=%d did not fire (exit %r)" % (s["sc"], s["n"], r["rc"]))
+                return ("nokill", "the kill before %s #%d did not fire (exit %r)" % (s["sc"], s["n"], r["rc"]))
             rc, msg = runner.emulate(r["final"])
             probs = []
             for tid, dp in thread_dirs(r["final"]).items():
@@ -212,6 +219,8 @@ def run_c09(prop, tier):
                 ob = read(os.path.join(dp, "stream.obs"))
                 if js is None:
                     continue          # not a stream: the emulator does not load it
+                if (sc, mode) in olds and olds[(sc, mode)].get(tid) == (js, ob):
+                    continue          # still the complete stream of the earlier run: this run has not touched it
                 want = full[tid]["obs"][:fl.get(tid, 0)]
                 if rc == 0:
                     if ob is None or ob[:len(want)] != want:
@@ -221,7 +230,12 @@ def run_c09(prop, tier):
                     fin = json.loads(js).get("ovni", {}).get("finished") == 1
                 except ValueError:
                     fin = False
-                if fin and ob != full[tid]["obs"]:
+                if fin and (sc, mode) in olds:
+                    # a finished mark left by the earlier run: the stream next to it must at least hold what this run flushed
+                    if ob is None or ob[:len(want)] != want:
+                        probs.append("P2: thread.%d/stream.json (left by the earlier run) says finished but stream.obs holds %d bytes while this run had flushed %d" % (
+                            tid, len(ob or b""), len(want)))
+                elif fin and ob != full[tid]["obs"]:
                     probs.append("P2: thread.%d/stream.json is marked finished in the final directory but stream.obs has %d of %d bytes" % (
                         tid, len(ob or b""), len(full[tid]["obs"])))
             return ("ok", probs, rc)
@@ -236,20 +250,19 @@ def run_c09(prop, tier):
                 acc += 1
             for p in res[1]:
                 ctx.violation("scenario %s mode %s, killed before syscall #%d %s(%s): %s" % (sc, mode, i, s["sc"], s["args"][:60], p),
-                              {"engine": "E5 strace kill", "scenario": sc, "ops": SCEN[sc], "mode": mode, "kill_before": s},
+                              {"engine": "E5 ptrace kill", "scenario": sc, "ops": SCEN[sc.split(":")[-1]], "mode": mode, "kill_before": s},
                               {"kind": p[:2], "mode": mode[0], "readdir": mode[1]})
         ctx.cov["distinct_nontrivial"] = len(jobs)
         ctx.cov["accepted_by_emulator_after_kill"] = acc
         ctx.cov["kill_points_shadowed_by_per_thread_counting"] = nshadow
         ctx.cov["rule"] = ("scenarios (minimal; several explicit/automatic flushes > 8 KiB; first life ending exactly on a 4096-byte boundary then a second life; "
-                           "metadata flush in the middle; two threads in three serialisations) x {direct, OVNI_TMPDIR with stream.json or stream.obs returned first "
+                           "metadata flush in the middle; two threads in three serialisations; r:<scenario> = the same after a complete earlier run of another program with the same pid/tid in the same directories) x {direct, OVNI_TMPDIR with stream.json or stream.obs returned first "
                            "by readdir}: the process is killed before every syscall that changes the file system (kills before calls without effect leave the same "
                            "state); oracle P1: if ovniemu accepts, every loaded stream contains all bytes its thread had flushed; P2: a finished stream.json in the "
                            "final directory implies the complete stream.obs next to it")
         ctx.sample({"scenario": "h3", "ops": SCEN["h3"], "mode": ["tmpdir", "json-first"], "kill": "before the 2nd write to final/.../stream.obs"})
-        ctx.assumptions += ["SIGKILL at syscall entry: the call does not execute (strace inject)", "strace counts occurrences per thread: in two-thread "
-                            "scenarios a point of the trailing thread with the same (syscall, occurrence) as an earlier point of the other thread cannot be targeted; "
-                            "mirrored serialisations (h4a/h4c) cover both roles", "data in stdio buffers is lost at the kill, page cache is not (process crash, not power loss)"]
+        ctx.assumptions += ["SIGKILL at syscall entry: the call does not execute (harness/killat.c, ptrace); the driver runs one thread at a time, so "
+                            "the global syscall order is deterministic and every point of every thread is targeted exactly", "data in stdio buffers is lost at the kill, page cache is not (process crash, not power loss)"]
         return ctx.finish()
     finally:
         scratch.cleanup()
@@ -304,7 +317,7 @@ def run_c10(prop, tier):
                 r = runner.run(tag, sc, mode, shortwrite=e[5:])
                 fired = any("VERIF-SHORT" in x[2] for x in r["log"])
             else:
-                r = runner.run(tag, sc, mode, inject="%s:error=%s:when=%d" % (s["sc"], e, s["n"]))
+                r = runner.run(tag, sc, mode, inject="err:%d:%s" % (s["n"], e))
                 fired = any("(INJECTED)" in x[4] for x in r["log"])
             full = refs[(sc, mode)]
             if not fired:
@@ -358,7 +371,7 @@ def run_c10(prop, tier):
             for p in res[1]:
                 site = "relocation" if ("final" in s["args"] or (mode[0] == "tmpdir" and s["sc"] in ("read", "unlink", "getdents64"))) else "runtime"
                 ctx.violation("scenario %s mode %s, %s on syscall #%d %s(%s): %s" % (sc, mode, e, i, s["sc"], s["args"][:70], p),
-                              {"engine": "E5 strace fault", "scenario": sc, "ops": SCEN[sc], "mode": mode, "fault": e, "syscall": s},
+                              {"engine": "E5 ptrace fault", "scenario": sc, "ops": SCEN[sc], "mode": mode, "fault": e, "syscall": s},
                               {"kind": "io-fault", "syscall": s["sc"], "what": p.split(" ")[0]})
         ctx.cov["distinct_nontrivial"] = len(jobs)
         ctx.cov["outcomes"] = outcomes
@@ -368,7 +381,7 @@ def run_c10(prop, tier):
                            "valid final trace accepted by ovniemu; in both cases no temporary file is removed while its final copy is incomplete")
         ctx.sample({"scenario": "h2", "mode": ["tmpdir", "obs-first"], "fault": "ENOSPC on the 2nd write of the relocation copy of stream.obs"})
         ctx.assumptions += ["single faults; stdio's own write loop (relocation copy) is not interposed",
-                            "strace error injection: the call does not execute and returns -errno"]
+                            "error injection (harness/killat.c, ptrace): the call does not execute and returns -errno"]
         return ctx.finish()
     finally:
         scratch.cleanup()
